@@ -1168,6 +1168,9 @@ fn start_monitor() {
                 // the baton holder sleeps outside the simulator: go on without it
                 st.threads[cur].status = Status::Foreign;
                 st.foreign_blocks += 1;
+                // (it is a block like any other to whoever asks whether a call blocked)
+                st.threads[cur].blocked_count += 1;
+                st.threads[cur].last_block_clock = st.clock;
                 let site = st.threads[cur].last_site;
                 loop {
                     match st.choose(None, cur, site) {
